@@ -18,6 +18,8 @@ use crate::world::{CloseKind, Cond, Opts, Outcome, Scenario, Step};
 pub const TIMEOUT_MS: u64 = 1000;
 /// the signal lands here in the default schedule
 pub const T_SIG: u64 = 100;
+/// tolerated distance between the instant the exit is due and the instant it happens
+pub const EXIT_SLACK_MS: u64 = 100;
 pub const ADMIN_MSG: &str = "terminating connection due to administrator command";
 
 pub const CLIENT_PROGS: &[&str] = &[
@@ -207,7 +209,9 @@ pub fn oracle(sc: &Scenario, out: &Outcome) -> Vec<Violation> {
     if let Some(t) = term0 {
         match exit {
             Some(x) if x.seq < t.seq => {}
-            Some(x) if x.t == t.t => {}
+            // "immediately": within the same instant, give or take a scheduler turn (100 ms of slack so that
+            // a harmless yield or log flush before leaving the loop is not an alarm)
+            Some(x) if x.t <= t.t + EXIT_SLACK_MS => {}
             Some(x) => vs.push(v("C17.term-not-immediate", format!("C17.term-not-immediate:{}", ctx), format!("SIGTERM at t={}ms, exit at t={}ms", t.t, x.t))),
             None => vs.push(v("C17.term-not-immediate", format!("C17.term-no-exit:{}", ctx), format!("SIGTERM at t={}ms, the main loop never ended", t.t))),
         }
@@ -258,7 +262,7 @@ pub fn oracle(sc: &Scenario, out: &Outcome) -> Vec<Violation> {
                 if still_here.is_empty() {
                     let t_all = counted.iter().map(|k| k.left.unwrap().t).max().unwrap_or(0);
                     let expected = t_all.max(i.t);
-                    if expected < deadline && x.t > expected {
+                    if expected + EXIT_SLACK_MS < deadline && x.t > expected + EXIT_SLACK_MS {
                         vs.push(v(
                             "C17.exit-late",
                             format!("C17.exit-late:{}", ctx),
